@@ -310,6 +310,24 @@ CLAIMED = {
                 "arithmetic as formalised by Flocq equals the CPU's (every allowed threshold is compared bit-for-bit).",
         "technique": "Coq proof (token-bucket invariants; float monotonicity via Flocq) + bit-exact correspondence and trace predicate by vm_compute",
     },
+    "C19": {
+        "text": "Theorems in Props/C19.v over a byte-level model of the metric log writer, file listing, searcher and reader: "
+                "for every history of writes with any timestamps and limits, every file left in the directory is the image of the "
+                "items written to it and every index entry (second, offset) points at the first line of that second in the same "
+                "file, the seconds increasing (C19_index_points_at_seconds); the number of retained files never exceeds the limit "
+                "(C19_retention); a log cut at any byte reads back as the complete lines before the cut plus at most one partial "
+                "line (C19_torn_tail); every complete line parses back to the item written (C19_lines_parse_back). Search results "
+                "(by time range and resource; from a time with a line limit), across roll-overs by size and date and after a "
+                "crash cut, are compared with the model on every run and judged by an executable predicate against the "
+                "directory dump (Spec/C19Spec.v).",
+        "design_ref": "DESIGN.md §6 C19",
+        "note": "Partial: search correctness across files and the crash clause are evaluated on every generated history of the "
+                "model and the implementation, not proved for all histories; each search uses a fresh searcher (the cached "
+                "index position is not exercised); a crash is emulated by truncating the files the last write appended to. "
+                "Trusted: Coq kernel + VM (closed under the global context); the harness's own directory listing and index "
+                "decoding; std::fs semantics after flush().",
+        "technique": "Coq proof (writer invariants over all histories, torn-tail lemma) + byte-exact correspondence of directory dumps and search results by vm_compute",
+    },
 }
 
 REASON_TODO = "not yet covered by the Coq development in this revision (planned, see DESIGN.md §6); no check is claimed"
